@@ -140,5 +140,15 @@ Definition groups_from_lines (lines : list nline) : result (list (list field)) :
 Definition groups (t : str) : result (list (list field)) :=
   groups_from_lines (lines_from_text t).
 
+(* the same parser handed numbered lines that do not start at 1 (lines taken from further down
+   a larger file): [renum g] rewrites the numbers, nothing else *)
+Definition renum (g : N -> N) (l : nline) : nline := mkLine (g (ln_num l)) (ln_val l).
+Definition renum_field (g : N -> N) (f : field) : field := mkField (f_name f) (map (renum g) (f_lines f)).
+Definition renum_groups (g : N -> N) (gs : list (list field)) : list (list field) := map (map (renum_field g)) gs.
+
+(* the lines of a text numbered from k+1, parsed, and k taken off the reported numbers again *)
+Definition groups_offset (t : str) (k : N) : result (list (list field)) :=
+  rmap (renum_groups (fun n => n - k)) (groups_from_lines (number_from (1 + k) (text_lines t))).
+
 (* Deb822Field.text *)
 Definition field_text (f : field) : str := join [10] (map ln_val (f_lines f)).
